@@ -166,6 +166,16 @@ def run(ctx):
                 return None
             if C.branch_when(b, atom) == lab:
                 guarded = True
+            # `v is not None` with v = <request>.get(field) (possibly through a helper that maps None to None): a field that
+            # is not named reads as None
+            def atom_nn(x, field=field, b=b):
+                if isinstance(x, ast.Compare) and len(x.ops) == 1 and isinstance(x.ops[0], (ast.IsNot, ast.Is)) and isinstance(x.comparators[0], ast.Constant) \
+                        and x.comparators[0].value is None and isinstance(x.left, ast.Name):
+                    if _none_when_unnamed(ctx, edit, x.left, b, field, request_params):
+                        return isinstance(x.ops[0], ast.IsNot)
+                return None
+            if C.branch_when(b, atom_nn) == lab:
+                guarded = True
         if not guarded:
             ctx.violated("C07.2", edit, "store to %r is not control-dependent on the request naming field %r: an edit that does not name it still changes it" % (ck, field), ins.node)
             continue
@@ -208,6 +218,15 @@ def run(ctx):
                 return None
             if C.branch_when(b, atom_kv) == lab:
                 named = True
+
+            def atom_kv_nn(x, kv=kv, b=b):
+                if isinstance(x, ast.Compare) and len(x.ops) == 1 and isinstance(x.ops[0], (ast.IsNot, ast.Is)) and isinstance(x.comparators[0], ast.Constant) \
+                        and x.comparators[0].value is None and isinstance(x.left, ast.Name):
+                    if _none_when_unnamed(ctx, edit, x.left, b, None, request_params, keyvar=kv):
+                        return isinstance(x.ops[0], ast.IsNot)
+                return None
+            if C.branch_when(b, atom_kv_nn) == lab:
+                named = True
         if not named:
             ctx.violated("C07.2", edit, "store under the key variable %r is not control-dependent on the request naming that field (`%s in args`): an edit that does not name it still changes it" % (kv, kv), ins.node)
             continue
@@ -249,15 +268,31 @@ def run(ctx):
     ctx.floor("dump sites reachable from edit_torrent", 1, len(sites))
     for fn, call, obj, how in sites:
         objs = pt.pts(obj, fn)
-        ok = bool(objs)
-        for o in objs:
-            if o in roots:
-                continue
-            if o.kind == "copy" and pt._copy_sources(o) and all(s in roots or (s.kind == "copy" and s.sorted) for s in pt._copy_sources(o)):
-                continue
-            ok = False
-        ctx.decide("C07.5", fn, ok, "the value dumped by %s is the decoded metafile (or its re-keying)" % how,
-                   "the value dumped is not (only) the decoded metafile: unnamed fields may be lost or invented", call)
+        info_objs = {o for o, ps in kp.items() if ("info",) in ps}
+
+        def is_decoded(o, depth=0, seen=frozenset()):
+            """o is the decoded metafile, a (re-keyed) copy of it, or a literal {**decoded, 'info': <the decoded info or a copy of it>}"""
+            if o in roots or o in seen:
+                return True         # (a copy that is, through a re-used name, its own source: decided by its other sources)
+            if depth > 4:
+                return False
+            if o.kind == "copy" and pt._copy_sources(o):
+                srcs = [s_ for s_ in pt._copy_sources(o) if s_ is not o]
+                return bool(srcs) and all(is_decoded(s_, depth + 1, seen | {o}) for s_ in srcs)
+            if o.kind == "dict" and isinstance(o.node, ast.Dict):
+                sp = pt.var.get(("spread", id(o.node)), set())
+                explicit = {const_str(k) for k in o.node.keys if k is not None}
+                if sp and all(x in roots for x in sp) and None not in explicit and explicit <= {"info"} and len([k for k in o.node.keys if k is None]) == 1:
+                    vals = pt.getfield(o, "info") if "info" in explicit else set()
+                    return all(v in info_objs or (v.kind == "copy" and all(s_ in info_objs for s_ in pt._copy_sources(v))) for v in vals)
+            return False
+        ok = bool(objs) and all(is_decoded(o) for o in objs)
+        if ok:
+            ctx.holds("C07.5", fn, "the value dumped by %s is the decoded metafile (or its re-keying)" % how, call)
+        elif objs and all(o.kind in ("dict", "copy") for o in objs) and any(isinstance(o.node, (ast.Dict, ast.DictComp)) for o in objs):
+            ctx.undecided("C07.5", fn, "the value dumped is built anew from the decoded metafile in a way that is not recognised as content-preserving", call)
+        else:
+            ctx.violated("C07.5", fn, "the value dumped is not (only) the decoded metafile: unnamed fields may be lost or invented", call)
     from .dynscan import dynamic_features
     dynamic_features(ctx, "C07.0")
 
@@ -394,6 +429,63 @@ def filter_table(ctx, pt, edit, filt, stores):
                                "filter row [%s]: effects %s%s, specification says %s" % (label, sorted(got) or "none", (" + " + "; ".join(other)) if other else "", sorted(want) or "none"),
                                "filter row: " + label)
     ctx.floor("filter decision-table rows", 12, rows)
+
+
+def _none_when_unnamed(ctx, fn, name_node, at, field, request_params, keyvar=None):
+    """The local is None whenever the request does not name `field`: it is <request>.get(field[, None]) or h(<that>) with
+    h(None) folding to None on every path."""
+    from tfsa.reach import ReachDefs
+    rd = ReachDefs(fn, C.cfg_of(fn))
+    defs = rd.reaching(name_node.id, at)
+    if not defs or not all(d.kind == "assign" and d.value is not None and not isinstance(d.value, tuple) for d in defs):
+        return False
+
+    def is_get(e):
+        return isinstance(e, ast.Call) and isinstance(e.func, ast.Attribute) and e.func.attr == "get" and isinstance(e.func.value, ast.Name) and e.func.value.id in request_params \
+            and e.args and ((keyvar is None and const_str(e.args[0]) == field) or (keyvar is not None and isinstance(e.args[0], ast.Name) and e.args[0].id == keyvar)) \
+            and (len(e.args) == 1 or (isinstance(e.args[1], ast.Constant) and e.args[1].value is None))
+    for d in defs:
+        v = d.value
+        if is_get(v):
+            continue
+        if isinstance(v, ast.Call) and len(v.args) == 1 and not v.keywords and is_get(v.args[0]):
+            tg = C.targets_of(ctx, fn, v)
+            if tg and all(_returns_none_for_none(ctx, h) for h in tg):
+                continue
+        return False
+    return True
+
+
+def _returns_none_for_none(ctx, h):
+    """Every path of package function h taken with its (single) argument = None returns None (tests folded with the literal)."""
+    params = [p_ for p_ in h.params if p_ != h.self_name]
+    if len(params) != 1 or h.is_generator:
+        return False
+    g = C.cfg_of(h)
+    env = {params[0]: None}
+
+    def atom(x):
+        try:
+            return bool(const_fold(x, env))
+        except _Unknown:
+            return None
+    try:
+        visited, term = C.trace(g, g.entry, atom)
+    except C.Undetermined:
+        return False
+    rets = [n.ast for n in visited if n.kind == "stmt" and isinstance(n.ast, ast.Return)]
+    if not rets:
+        return term == "exit"       # falls off the end: returns None
+    r = rets[-1]
+    if r.value is None:
+        return True
+    try:
+        if isinstance(r.value, ast.IfExp):
+            t = bool(const_fold(r.value.test, env))
+            return const_fold(r.value.body if t else r.value.orelse, env) is None
+        return const_fold(r.value, env) is None
+    except _Unknown:
+        return False
 
 
 class _Unknown(Exception):
